@@ -131,11 +131,76 @@ class MFunctools(Model):
     reduce = staticmethod(functools.reduce)
 
 
+class RepoInstance(Model):
+    """Instance of a class *defined by the repository*: attributes are stored on the object, every method
+    (dunder methods included) is a closure evaluated from the class's source."""
+
+    _allow_private = True
+    _serial = 0
+    _salt = 0
+
+    def __init__(self, pkg, rel, cls):
+        d = object.__getattribute__(self, "__dict__")
+        d["_ri_pkg"], d["_ri_rel"], d["_ri_cls"], d["_ri_methods"] = pkg, rel, cls, {}
+        RepoInstance._serial += 1
+        d["_ri_id"] = RepoInstance._serial
+
+    def __getattr__(self, name):
+        d = object.__getattribute__(self, "__dict__")
+        pkg, rel, cls, ms = d["_ri_pkg"], d["_ri_rel"], d["_ri_cls"], d["_ri_methods"]
+        if name in ms:
+            return ms[name]
+        key = (rel, f"{cls}.{name}")
+        if key not in pkg.repo.funcs:
+            raise AttributeError(name)
+        bi = BlockInterp(dict(pkg.env(rel)), max_steps=pkg.max_steps)
+        clo = bi.make_closure(pkg.repo.funcs[key].node)
+        inst = self
+        ms[name] = lambda *a, **k: clo(inst, *a, **k)
+        return ms[name]
+
+    def _dunder(self, name, *a):
+        try:
+            m = self.__getattr__(name)
+        except AttributeError:
+            raise Unsupported(f"repository class {object.__getattribute__(self, '__dict__')['_ri_cls']} has no {name}")
+        return m(*a)
+
+    def __contains__(self, x):
+        return self._dunder("__contains__", x)
+
+    def __len__(self):
+        return self._dunder("__len__")
+
+    def __iter__(self):
+        return iter(self._dunder("__iter__"))
+
+    def __hash__(self):
+        return hash((RepoInstance._salt * 7919 + object.__getattribute__(self, "__dict__")["_ri_id"] * 104729) % 1000003)
+
+    def __eq__(self, other):
+        return self is other
+
+
+def repo_class(pkg, rel, cls):
+    def construct(*a, **k):
+        inst = RepoInstance(pkg, rel, cls)
+        if (rel, f"{cls}.__init__") in pkg.repo.funcs:
+            inst.__getattr__("__init__")(*a, **k)
+        return inst
+
+    construct.__name__ = cls
+    return construct
+
+
 class Package:
     """All module environments of one repository snapshot."""
 
-    def __init__(self, repo, overrides=None, max_steps=400000):
+    def __init__(self, repo, overrides=None, max_steps=400000, full_stack=False):
+        """full_stack=True: `Circuit` / `BlackBox` are the repository's own classes (RepoInstance over the graph
+        model) instead of the reference model - every method of every call history is evaluated from source."""
         self.repo = repo
+        self.full_stack = full_stack
         self.max_steps = max_steps
         self.overrides = overrides or {}
         self.envs = {}
@@ -162,9 +227,9 @@ class Package:
     # ---- the `cg` namespace -------------------------------------------
     def _cg_attr(self, name):
         if name == "Circuit":
-            return RefCircuit
+            return repo_class(self, "circuit.py", "Circuit") if self.full_stack else RefCircuit
         if name == "BlackBox":
-            return RefBlackBox
+            return repo_class(self, "circuit.py", "BlackBox") if self.full_stack else RefBlackBox
         if name in ("primitive_gates", "addable_types", "supported_types"):
             return list(self.voc[name])
         if name == "generic_flop":
@@ -200,7 +265,7 @@ class Package:
         env = {}
         self.envs[rel] = env
         env.update({
-            "cg": self.cg, "nx": self.nx, "Circuit": RefCircuit, "BlackBox": RefBlackBox,
+            "cg": self.cg, "nx": self.nx, "Circuit": self._cg_attr("Circuit"), "BlackBox": self._cg_attr("BlackBox"),
             "primitive_gates": list(self.voc["primitive_gates"]), "addable_types": list(self.voc["addable_types"]), "supported_types": list(self.voc["supported_types"]),
             "reduce": functools.reduce, "combinations": itertools.combinations, "product": itertools.product,
             "defaultdict": m_defaultdict, "Queue": MQueue, "bin": bin, "generic_flop": self.generic_flop,
